@@ -9,7 +9,7 @@ from .. import core, gen, hist, model
 from ..session import Outcome
 from . import PropBase, steps_with_ids
 
-FAULTS = ("mutate_result", "clear", "shrink", "twin", "clear_typing", "stack")
+FAULTS = ("mutate_result", "clear", "shrink", "twin", "clear_typing", "stack", "exhaust_scan")
 PLAIN = (type(None), bool, int, float, str)
 
 
@@ -116,6 +116,10 @@ class C06(PropBase):
             step = {"op": "marshal", "t": t, "v": copy.deepcopy(v), "mod": rng.choice(mods)}
             if "stack" in sw and rng.random() < 0.2:
                 step["depth"] = rng.randint(1, 40)
+            if "exhaust_scan" in sw and rng.random() < 0.25:
+                # the same object is first offered from every stack depth at which the conversion
+                # cannot complete (RecursionError one frame further in each time)
+                step["scan"] = True
             steps.append(step)
             if "mutate_result" in sw and rng.random() < 0.5:
                 # F3: mutate what the caller was given, then ask again
